@@ -260,6 +260,17 @@ fn run_scenario(v: &Value, base: &Path) -> Value {
     let _ = std::fs::remove_dir_all(&root);
     std::fs::create_dir_all(&root).unwrap();
     build_tree(&root, &entries.iter().filter(|e| e.as_str() != "<stdin>").cloned().collect::<Vec<_>>(), &errs);
+    // directories that cannot be opened (mode 000; the recorder must not run as root for these): the entry itself is
+    // handed out, reading it fails
+    let locked: BTreeSet<String> =
+        v["locked"].as_array().map(|a| a.iter().map(|x| x.as_str().unwrap().to_string()).collect()).unwrap_or_default();
+    if !locked.is_empty() && unsafe { libc::geteuid() } == 0 {
+        return json!({"id": id, "toolerror": "scenario with unreadable directories run as root"});
+    }
+    for d in &locked {
+        use std::os::unix::fs::PermissionsExt;
+        std::fs::set_permissions(root.join(d), std::fs::Permissions::from_mode(0o000)).unwrap();
+    }
     // an ignore file with an unparsable line in the directory ABOVE the roots: every root reports the error through
     // its visitor (Worker::run_one, add_parents) and is then walked as usual
     let badparent = v["badparent"].as_bool().unwrap_or(false);
@@ -328,6 +339,7 @@ fn run_scenario(v: &Value, base: &Path) -> Value {
     let root2 = root.clone();
     let quit2 = quit.clone();
     let skip2 = skip.clone();
+    let locked2 = locked.clone();
     let done2 = done.clone();
     let handle = std::thread::spawn(move || {
         let r = std::panic::catch_unwind(std::panic::AssertUnwindSafe(|| {
@@ -336,6 +348,7 @@ fn run_scenario(v: &Value, base: &Path) -> Value {
                 let root = root2.clone();
                 let quit = quit2.clone();
                 let skip = skip2.clone();
+                let locked = locked2.clone();
                 Box::new(move |res| {
                     let (p, err) = match res {
                         Ok(d) => (rel(&root, d.path()), false),
@@ -344,6 +357,12 @@ fn run_scenario(v: &Value, base: &Path) -> Value {
                     let w = WORKER.with(|w| w.get());
                     if err && (p == ".ignore" || p.starts_with("..") || p == "<error>") {
                         // an error that is not about an entry of the tree (a bad ignore file above the roots): noted only
+                        let mut g = s.m.lock().unwrap();
+                        g.trace.push(json!({"ev":"Note","w":w.wrapping_add(1),"path":p}));
+                        return WalkState::Continue;
+                    }
+                    if err && locked.contains(&p) && s.m.lock().unwrap().visits.contains_key(&p) {
+                        // the directory itself was handed out; this is the failure to read it
                         let mut g = s.m.lock().unwrap();
                         g.trace.push(json!({"ev":"Note","w":w.wrapping_add(1),"path":p}));
                         return WalkState::Continue;
@@ -392,6 +411,10 @@ fn run_scenario(v: &Value, base: &Path) -> Value {
         "steps": g.steps, "choices": g.choices, "cands": g.cand_log, "threads": threads,
         "exited": g.exited.len(), "wall_ms": t0.elapsed().as_millis() as u64});
     drop(g);
+    for d in &locked {
+        use std::os::unix::fs::PermissionsExt;
+        let _ = std::fs::set_permissions(root.join(d), std::fs::Permissions::from_mode(0o755));
+    }
     if !hang {
         let _ = std::fs::remove_dir_all(&root);
     }
